@@ -539,6 +539,19 @@ class Cache(Machine):
                 model["envs"].pop(op["out_env"], None)
             if in_place and host.read(in_rel) != inp:
                 model["envs"].pop(op["in"], None)
+                if prop == "C11" and not o.ok and not o.fired and o.cls != "crash":
+                    # the command refused the hierarchy (nothing was extracted, there is no cache) - yet it rewrote the
+                    # envelope it was given in place: the payloads it popped are now in no place at all
+                    try:
+                        lost = [k for k, b in payload_multiset(inp, dep_rx=op["dep"]).items()
+                                if payload_multiset(host.read(in_rel) or b"", dep_rx=op["dep"]).get(k) != b]
+                    except (cborr.CborError, IndexError, AttributeError, TypeError):
+                        lost = ["envelope unreadable"]
+                    if lost:
+                        model["caches"].pop(op["out"], None)
+                        return [violation("C11", "each-payload-in-exactly-one-place", op["i"],
+                                          f"cache_create from_envelope refused the input ({o.exc_type}: {str(o.exc_msg)[:80]}) but had "
+                                          f"already rewritten it in place: {lost[:4]} are in no envelope and in no cache")]
             model["caches"].pop(op["out"], None)
             return []
         if not o.ok:
